@@ -1,0 +1,16 @@
+//go:build verif
+
+// Verification hooks (add-only, compiled only with -tags verif). They expose
+// the unexported code page hasher to the out-of-tree correspondence harness
+// in /verif; no existing behaviour is changed.
+package csblob
+
+import (
+	"crypto"
+	"io"
+)
+
+// VerifHashPages calls hashPages.
+func VerifHashPages(hashFuncs []crypto.Hash, pages io.Reader, singlePage bool) ([][]byte, uint32, int64, error) {
+	return hashPages(hashFuncs, pages, singlePage)
+}
